@@ -63,7 +63,7 @@ Proof. exact ss_read_foreign_rejected. Qed.
 Print Assumptions C15_foreign_signature_rejected.
 
 (* The counter delta accepted by the code is small enough that delta * 64KB fits int64 (range check
-   added by /repo commit 0157bec after this check found 2^50 blocks being charged 0): the charge is
+   added by /repo commit 5bead22 after this check found 2^50 blocks being charged 0): the charge is
    computed from the true byte count. *)
 Theorem C15_size_does_not_wrap :
   forall rp n, 0 <= n <= (2 ^ 63 - 1) / ss_CHUNK ->
